@@ -394,34 +394,32 @@ theorem selected_once (hs : List (Handler V)) (c : Cause V) (ex : List String) :
   ⟨dedup_nodup _, dedup_nodup _⟩
 
 -- ---- stealth -------------------------------------------------------------------------------------
+/- FULL STATEMENT of the clause "objects matched by no handler are left untouched: no annotations,
+   no finalizer", over the model's cycle (its `Effect` list enumerates what `process_resource_causes`
+   can queue: the patch carried in from `memory.remaining_patch`, on.event invocations, daemon
+   spawning, the three `patch.fns.append` sites, and `process_changing_cause`):
+       theorem stealth_full (nothing (pre)matches) : cycle r cs o stopped = []
+   It is FALSE of the code in exactly two ways; `stealth_exact` says precisely what is done instead:
+     * `stealth_blocked_witness`: the own finalizer is still on the object → it is removed (this is
+       what the clause wants — "no finalizer" — so it is the code that is right, not a finding);
+     * `stealth_carried_witness`: a transformation function of an earlier cycle, whose JSON-patch was
+       rejected with HTTP 422, is re-sent although the object matches nothing any more. By design
+       (/repo 1c8f3dd keeps exactly the handlers' functions, "which will not be produced again", and
+       drops the framework's own finalizer edits): it is the retry of a write that a legitimately
+       invoked handler produced. Replayed on the real code by corpus/C15/d17-carried-patch.json.
+   Not in the model (so not covered by these theorems): `application.apply`'s sleep-and-touch, which
+   needs a non-empty `delays`, i.e. a matched daemon/timer or changing handler; progress records
+   left on an object that stopped matching while a cycle was open (C03's subject). -/
 
-/-- no changing handler prematches, no finalizer-requiring daemon/timer matches, the own finalizer
-    is absent ⇒ the cycle queues no framework write (no finalizer change, no handling: hence no
-    progress / diff-base annotations) -/
-theorem stealth (r : Registry V) (cs : Causes V) (o : Obj) (stopped : List String)
-    (hpre : prematchAny r.changing cs.changing = false)
-    (hsp : requiresFinalizerSpawning r.spawning cs.spawning stopped = false)
-    (hfin : o.blocked = false) :
-    ∀ e ∈ cycle r cs o stopped, e.isFrameworkWrite = false := by
-  intro e he
-  simp only [cycle, hpre, hsp, hfin, blindCore, addingCore, removingCore, mustBlockCore, releaseCore,
-    Bool.and_false, Bool.false_and, Bool.or_false, Bool.not_false, Bool.and_true,
-    Bool.and_not_self, Bool.false_eq_true, if_false, List.append_nil, List.mem_append] at he
-  rcases he with he | he
-  · split at he
-    · simp only [List.mem_singleton] at he; subst he; rfl
-    · simp at he
-  · split at he
-    · simp only [List.mem_singleton] at he; subst he; rfl
-    · simp at he
-
-/-- …and if in addition no on.event handler and no daemon/timer matches at all, nothing happens -/
-theorem stealth_total (r : Registry V) (cs : Causes V) (o : Obj) (stopped : List String)
+/-- exactly what a cycle does to an object that no handler of any kind (pre)matches -/
+theorem stealth_exact (r : Registry V) (cs : Causes V) (o : Obj) (stopped : List String)
     (hpre : prematchAny r.changing cs.changing = false)
     (hw : ∀ h ∈ r.watching, matchHandler h cs.watching = false)
-    (hs : ∀ h ∈ r.spawning, matchHandler h cs.spawning = false)
-    (hfin : o.blocked = false) :
-    cycle r cs o stopped = [] := by
+    (hs : ∀ h ∈ r.spawning, matchHandler h cs.spawning = false) :
+    cycle r cs o stopped =
+      (if o.carried then [Effect.carried] else []) ++
+      (if o.blocked then [Effect.removeFinalizer] else []) ++
+      (if !o.deletedEvent && o.ongoing && o.blocked && o.noDelays then [Effect.removeFinalizer] else []) := by
   have e1 : iterPlain r.watching cs.watching [] = [] := by
     simp only [iterPlain, List.filter_eq_nil_iff]
     intro h hm; simp [selPlain, selPlainCore, selAtoms, hw h hm]
@@ -431,8 +429,40 @@ theorem stealth_total (r : Registry V) (cs : Causes V) (o : Obj) (stopped : List
   have e3 : requiresFinalizerSpawning r.spawning cs.spawning stopped = false := by
     simp only [requiresFinalizerSpawning, List.any_eq_false]
     intro h hm; simp [reqFinSpawningCore, selAtoms, hs h hm]
-  simp [cycle, hpre, e3, hfin, blindCore, addingCore, removingCore, mustBlockCore, releaseCore,
-    getHandlersPlain, e1, e2, dedup, dedupBy, dedupByAux, ids]
+  rcases o with ⟨d, g, b, n, c⟩
+  cases d <;> cases g <;> cases b <;> cases n <;> cases c <;>
+    simp [cycle, hpre, e3, blindCore, addingCore, removingCore, mustBlockCore, releaseCore, earlyExitCore,
+      getHandlersPlain, e1, e2, dedup, dedupBy, dedupByAux, ids]
+
+/-- the clause proper, under the exact guards: own finalizer absent, nothing carried in -/
+theorem stealth_total_partial (r : Registry V) (cs : Causes V) (o : Obj) (stopped : List String)
+    (hpre : prematchAny r.changing cs.changing = false)
+    (hw : ∀ h ∈ r.watching, matchHandler h cs.watching = false)
+    (hs : ∀ h ∈ r.spawning, matchHandler h cs.spawning = false)
+    (hfin : o.blocked = false) (hcar : o.carried = false) :
+    cycle r cs o stopped = [] := by
+  rw [stealth_exact r cs o stopped hpre hw hs]; simp [hfin, hcar]
+
+/-- weaker hypotheses (on.event handlers and finalizer-free spawning may match): no changing
+    handler prematches, no finalizer-requiring daemon/timer matches, own finalizer absent, nothing
+    carried in ⇒ the cycle queues no write of its own (no finalizer change, no handling: hence no
+    progress / diff-base annotations, no re-sent transformation) -/
+theorem stealth_partial (r : Registry V) (cs : Causes V) (o : Obj) (stopped : List String)
+    (hpre : prematchAny r.changing cs.changing = false)
+    (hsp : requiresFinalizerSpawning r.spawning cs.spawning stopped = false)
+    (hfin : o.blocked = false) (hcar : o.carried = false) :
+    ∀ e ∈ cycle r cs o stopped, e.isFrameworkWrite = false := by
+  intro e he
+  simp only [cycle, hpre, hsp, hfin, hcar, blindCore, addingCore, removingCore, mustBlockCore, releaseCore,
+    earlyExitCore, Bool.and_false, Bool.false_and, Bool.or_false, Bool.not_false, Bool.and_true,
+    Bool.and_not_self, Bool.false_eq_true, if_false, List.append_nil, List.nil_append, List.mem_append] at he
+  rcases he with he | he
+  · split at he
+    · simp only [List.mem_singleton] at he; subst he; rfl
+    · simp at he
+  · split at he
+    · simp only [List.mem_singleton] at he; subst he; rfl
+    · simp at he
 
 -- ---------------------------------------------------------------------------------------------
 -- witnesses of the three gaps (each is replayed on the real code from corpus/C15/F1..F3, d06)
@@ -531,9 +561,9 @@ def wCs (label : Option String) : Causes J :=
   { watching := c, spawning := c, changing := c }
 example : prematchAny wR.changing (wCs none).changing = false ∧
     requiresFinalizerSpawning wR.spawning (wCs none).spawning [] = false ∧
-    cycle wR (wCs none) ⟨false, false, false, true⟩ [] = [] := by decide
+    cycle wR (wCs none) ⟨false, false, false, true, false⟩ [] = [] := by decide
 -- … and with the label the same cycle adds the finalizer (so `stealth`'s hypothesis is what matters)
-example : cycle wR (wCs (some "v")) ⟨false, false, false, true⟩ [] = [Effect.addFinalizer] := by decide
+example : cycle wR (wCs (some "v")) ⟨false, false, false, true, false⟩ [] = [Effect.addFinalizer] := by decide
 
 -- non-vacuity of `stealth_total` with handlers of all three kinds present but filtered out, and of
 -- `dedup_first_kept` (the second registration of (0, "h") is not the first of its key; the third is)
@@ -543,14 +573,36 @@ example :
     prematchAny r.changing (wCs (some "y")).changing = false ∧
     (∀ g ∈ r.watching, matchHandler g (wCs (some "y")).watching = false) ∧
     (∀ g ∈ r.spawning, matchHandler g (wCs (some "y")).spawning = false) ∧
-    cycle r (wCs (some "y")) ⟨false, false, false, true⟩ [] = [] ∧
-    cycle r (wCs (some "x")) ⟨false, false, false, true⟩ [] =
+    cycle r (wCs (some "y")) ⟨false, false, false, true, false⟩ [] = [] ∧
+    cycle r (wCs (some "x")) ⟨false, false, false, true, false⟩ [] =
       [Effect.invokeWatching ["h"], Effect.spawn ["h"], Effect.addFinalizer] := by
   refine ⟨by decide, ?_, ?_, by decide, by decide⟩ <;> (intro g hg; simp at hg; subst hg; decide)
 example :
     let h := wH true .unset false
     ∀ g ∈ [h, { h with labels := some [] }], g.key ≠ ({ h with fn := 1 } : Handler J).key := by
   intro h g hg; simp at hg; rcases hg with rfl | rfl <;> decide
+
+/-- the carried-in transformation is re-sent to an object that nothing matches (and nothing else
+    is done): the guard `o.carried = false` of `stealth_*_partial` is necessary -/
+theorem stealth_carried_witness :
+    ∃ (r : Registry J) (cs : Causes J) (o : Obj), prematchAny r.changing cs.changing = false ∧
+      (∀ h ∈ r.watching, matchHandler h cs.watching = false) ∧
+      (∀ h ∈ r.spawning, matchHandler h cs.spawning = false) ∧ o.blocked = false ∧
+      cycle r cs o [] = [Effect.carried] ∧ Effect.carried.isFrameworkWrite = true :=
+  ⟨wR, wCs none, ⟨false, false, false, true, true⟩, by decide, by simp [wR], by simp [wR], rfl, by decide, rfl⟩
+
+/-- a leftover own finalizer on an object that nothing matches is removed: the guard
+    `o.blocked = false` is necessary (and the removal is what the clause asks for) -/
+theorem stealth_blocked_witness :
+    ∃ (r : Registry J) (cs : Causes J) (o : Obj), prematchAny r.changing cs.changing = false ∧
+      (∀ h ∈ r.watching, matchHandler h cs.watching = false) ∧
+      (∀ h ∈ r.spawning, matchHandler h cs.spawning = false) ∧ o.carried = false ∧
+      cycle r cs o [] = [Effect.removeFinalizer] :=
+  ⟨wR, wCs none, ⟨false, false, true, true, false⟩, by decide, by simp [wR], by simp [wR], rfl, by decide⟩
+
+-- a carried patch also postpones the handling of an object that DOES match (exit to PATCHing first)
+example : cycle wR (wCs (some "v")) ⟨false, false, true, true, true⟩ [] = [Effect.carried] ∧
+    cycle wR (wCs (some "v")) ⟨false, false, true, true, false⟩ [] = [Effect.handle ["h"]] := by decide
 
 end Witnesses
 
